@@ -2,18 +2,7 @@
 
 package controllerv1
 
-import (
-	"net/http"
+import "net/http"
 
-	"github.com/metrico/qryn/writer/service"
-	"github.com/metrico/qryn/writer/utils/helpers"
-	"github.com/metrico/qryn/writer/utils/promise"
-)
-
-// VerifDoParse exposes the unexported handler core (wait for every promise of every parsed chunk).
+// VerifDoParse exposes the unexported handler core (parse, submit every chunk, wait for every promise).
 func VerifDoParse(r *http.Request, parser Parser) error { return doParse(r, parser) }
-
-// VerifDoPush exposes the bounded-retry submit.
-func VerifDoPush(req helpers.SizeGetter, insertMode int, svc service.IInsertServiceV2) *promise.Promise[uint32] {
-	return doPush(req, insertMode, svc)
-}
